@@ -61,7 +61,7 @@ pub fn gen_flow(
                 &Constraint::truthy("if condition", &Expected::from(cond)),
                 env,
             );
-            generate(cond, env, ctx, constr)?;
+            generate(cond, &env.is_expr(true), ctx, constr)?;
             let if_expr_exp = Expected::from(ast);
 
             constr.branch_point();
@@ -95,19 +95,19 @@ pub fn gen_flow(
                 env,
             );
 
-            generate(cond, env, ctx, constr)?;
+            generate(cond, &env.is_expr(true), ctx, constr)?;
             generate(then, env, ctx, constr)?;
             Ok(env.clone())
         }
 
         Node::Case { .. } => Err(vec![TypeErr::new(ast.pos, "Case cannot be top level")]),
         Node::Match { cond, cases } => {
-            let outer_env = generate(cond, env, ctx, constr)?;
+            let outer_env = generate(cond, &env.is_expr(true), ctx, constr)?.is_expr(env.is_expr);
             constrain_cases(ast, &Some(*cond.clone()), cases, &outer_env, ctx, constr)
         }
 
         Node::For { expr, col, body } => {
-            let col_env = generate(col, env, ctx, constr)?;
+            let col_env = generate(col, &env.is_expr(true), ctx, constr)?.is_expr(env.is_expr);
             let lookup_env = constr_col_lookup(expr, col, &col_env.is_def_mode(true), constr)?
                 .is_def_mode(false);
             let lookup_env = generate(expr, &lookup_env, ctx, constr)?;
@@ -121,7 +121,7 @@ pub fn gen_flow(
                 env,
             );
 
-            generate(cond, env, ctx, constr)?;
+            generate(cond, &env.is_expr(true), ctx, constr)?;
             generate(body, &env.in_loop(), ctx, constr)?;
             Ok(env.clone())
         }
